@@ -8,10 +8,25 @@ ASSUMPTIONS = ["the order relation of the property leaves ties and the placement
 
 def run(ctx):
     for i in range(ctx.budget(220, 3000)):
-        s = Subject(ctx, maxlen=5, p_big=(0.3 if i % 4 == 0 else 0.0))
+        s = Subject(ctx, maxlen=5, p_big=(0.6 if i % 4 == 0 else 0.0))
         ops_nf.case_sort(ctx, s)
         if i % 10 == 0:
             ops_nf.case_sort_refusal(ctx, s)
+        if i % 8 == 0:
+            # 64-bit identifiers: neighbouring integers beyond 2**53 (equal as float64) in one row, a null elsewhere
+            rng = ctx.rng
+            base = rng.choice([2**53, 2**62, -(2**53) - 4, 2**60 + 12345])
+            nb = [base + d for d in rng.sample(range(0, 4), rng.randint(2, 4))]
+            rows = []
+            for r in range(rng.randint(2, 4)):
+                k = rng.randint(1, 3)
+                rows.append([["a", [rng.choice([None, rng.randint(-3, 6), base + 7]) for _ in range(k)]],
+                             ["b", [{"f": rng.randint(-6, 12)} for _ in range(k)]]])
+            j = rng.randrange(len(rows))
+            rows[j] = [["a", nb], ["b", [{"f": rng.randint(-6, 12)} for _ in nb]]]
+            jn = rng.choice([x for x in range(len(rows)) if x != j])
+            rows[jn][0][1][0] = None
+            ops_nf.case_sort(ctx, Subject(ctx, content={"ty": [["a", "int64"], ["b", "double"]], "rows": rows}))
         if i % 6 == 0:
             ops_nf.case_sort(ctx, s, nest_name="my nest")
         if i % 5 == 0:
